@@ -297,6 +297,8 @@ func genTxnScriptF(g *Gen, native, hack, pad bool, steps int, flavor string) []s
 		case 2, 3, 4:
 			ls := []string{"T", "T", "T-1", "0", "T+1", "R", "R"}[t.r.Intn(7)]
 			switch {
+			case flavor == "c18" && !hack && t.r.Intn(3) == 0:
+				t.lines = append(t.lines, fmt.Sprintf("prop.c18.cancel a %s %s %d %s %d", t.snapshot(), ls, t.now(), cut, t.r.Intn(7)))
 			case flavor == "c18":
 				t.lines = append(t.lines, fmt.Sprintf("prop.c18.load a %s %s %d %s", t.snapshot(), ls, t.now(), cut))
 			case flavor == "c01" && native:
